@@ -62,6 +62,42 @@ def scans(run):
                       where="fickle.Interpreter.unused_assignments", meta={"clause": "iteration over a set only builds a mapping keyed by the element"})
     run.syntactic("fickle.Interpreter.unused_assignments:order:set-iterations-counted", "type", len(setiters) == 1, f"{len(setiters)} iteration(s) over `defined - used`",
                   where="fickle.Interpreter.unused_assignments", meta={"clause": "the one known set iteration is the dict comprehension"})
+    # consumers of that hash-ordered mapping must be order-insensitive in *what* they produce: an iteration may not read state that an
+    # earlier iteration wrote (no loop-carried dependence), except through context.shorten_code whose 'already reported' flag must be unused
+    for cls in run.repo.live["analysis_all"]:
+        mod2, fn2 = run.repo.function(cls + ".analyze")
+        for loop in [n for n in _ast.walk(fn2) if isinstance(n, _ast.For) and "unused_assignments" in _ast.unparse(n.iter)]:
+            outer = {n.id for n in _ast.walk(fn2) if isinstance(n, _ast.Name) and isinstance(n.ctx, _ast.Store)} - \
+                {n.id for n in _ast.walk(loop.target) if isinstance(n, _ast.Name)}
+            mutated, assigned_in_body = set(), set()
+            for n in _ast.walk(_ast.Module(body=loop.body, type_ignores=[])):
+                if isinstance(n, _ast.Call) and isinstance(n.func, _ast.Attribute) and isinstance(n.func.value, _ast.Name) and \
+                        n.func.attr in ("add", "append", "extend", "update", "insert", "pop", "remove", "discard", "setdefault", "clear"):
+                    mutated.add(n.func.value.id)
+                if isinstance(n, (_ast.Assign, _ast.AugAssign)):
+                    for t in (n.targets if isinstance(n, _ast.Assign) else [n.target]):
+                        for x in _ast.walk(t):
+                            if isinstance(x, _ast.Name) and isinstance(x.ctx, _ast.Store):
+                                assigned_in_body.add(x.id)
+                        if isinstance(t, _ast.Subscript) and isinstance(t.value, _ast.Name):
+                            mutated.add(t.value.id)
+                if isinstance(n, _ast.AugAssign) and isinstance(n.target, _ast.Name):
+                    mutated.add(n.target.id)
+            defined_before = {n.id for st_ in fn2.body for n in _ast.walk(st_) if isinstance(n, _ast.Name) and isinstance(n.ctx, _ast.Store)
+                              and getattr(n, "lineno", 0) < loop.lineno}
+            carried = sorted((mutated & defined_before))
+            flag_used = False
+            for n in _ast.walk(_ast.Module(body=loop.body, type_ignores=[])):
+                if isinstance(n, _ast.Assign) and isinstance(n.value, _ast.Call) and _ast.unparse(n.value.func).endswith("shorten_code") \
+                        and isinstance(n.targets[0], _ast.Tuple) and len(n.targets[0].elts) == 2:
+                    second = n.targets[0].elts[1]
+                    name = second.id if isinstance(second, _ast.Name) else None
+                    if name and name != "_" and any(isinstance(x, _ast.Name) and x.id == name and isinstance(x.ctx, _ast.Load)
+                                                    for x in _ast.walk(_ast.Module(body=loop.body, type_ignores=[]))):
+                        flag_used = True
+            run.syntactic(f"{cls}.analyze:order:no-loop-carried-state@{loop.lineno}", "type", not carried and not flag_used,
+                          f"loop-carried: {carried}; shorten_code flag used: {flag_used}", where=cls + ".analyze",
+                          meta={"clause": "iterating the hash-ordered unused-assignment mapping, each finding depends on its own element only"})
     run.informational.append("the *order* of UnusedVariables findings (and so of result strings and of detailed_results' last-wins trigger) follows the hash "
                              "order of variable names; the statement's observables (decompiled source, verdict, *set* of findings) do not depend on it")
 
